@@ -2,6 +2,7 @@ import PdfModel.Lemmas.StorageRun
 import PdfModel.Lemmas.StoragePrefix
 import PdfModel.Lemmas.StorageLoad
 import PdfModel.Lemmas.HistBytes
+import PdfModel.Lemmas.BuildBytes
 
 /-!
 # C09 — a reload sees exactly the saved modifications and nothing else changes
@@ -53,7 +54,9 @@ theorem read_your_writes (P : Params V) (d0 : Doc V) (chain0) (hb : BaseOK d0 ch
     · exact hr
   · exact hr
 
-/-- **C09, D22**: `update` and `fulfil` hand back the very reference they were given. -/
+/-- **C09, D22**: when `update` / `fulfil` hand back a reference, its *number* is the number they were given (the
+    statement is about the number only; that the generation is the one of the table entry, or 0 for a compressed or
+    promised one, is in the model's `update` and is compared by the correspondence `c09.hist`). -/
 theorem update_keeps_reference (P : Params V) (d : Doc V) (id : Nat) (v : V) (i g : Nat)
     (h : (step P d (.update id v)).2 = .ref i g ∨ (step P d (.fulfil id v)).2 = .ref i g) : i = id := by
   rw [step_fulfil_eq, or_self] at h
@@ -107,8 +110,9 @@ theorem reload_sees_saved (P : Params V) (d0 : Doc V) (chain0) (hb : BaseOK d0 c
       rw [pf.ch_sub sid (hlt sid hsid)]
       exact hm.untouched sid (hcont sid idx he) hsid
 
-/-- `save` never writes a table the reader would refuse (more than `MAX_ID` = 1 000 000 numbers): it
-    fails instead, leaving the document as it was (D46). -/
+/-- a *successful* `save` has written a `/Size` within the reader's limit (`MAX_ID` = 1 000 000) — what the statement
+    says. That a save over the limit fails and leaves the document as it was (D46) is `Storage.save_too_big`
+    (Lemmas/StorageSave.lean: `MAX_ID < refs.length + 2 → save P L d = (d, .err)`), not this theorem. -/
 theorem save_respects_reader_limit (P : Params V) (L : Layout) (d d' : Doc V) (i : SaveInfo)
     (hs : save P L d = (d', .ok i)) : i.size ≤ MAX_ID ∧ d.st.refs.length + 2 ≤ MAX_ID := by
   obtain ⟨_, _, _, _, _, _, _, _, h3, _, h5⟩ := save_ok_spec P L d d' i hs
@@ -136,7 +140,10 @@ theorem history_prefix_preserved (P : Params V) (d : Doc V) (ops : List (Op V)) 
 /-- **C09, "a save that fails and is retried after the offending object is replaced"**: for a document
     reached by any history (failed saves included), `save` succeeds as soon as every pending value is
     serialisable, no promise is open, the catalog resolves and the table is within the reader's limit —
-    the failed attempts leave nothing behind that could stop it — and the reload theorem applies. -/
+    the failed attempts leave nothing behind that could stop it — and the reload theorem applies.
+    Hypothesis `ht : L.typed = true`: the typed reload of the trailer at the end of this save succeeds (the catalog loads as
+    a catalog: an input of the model, see `Layout.typed`); without it the save fails after writing
+    (`late_failure_keeps_revision`). `Savable` is the conjunction named above. -/
 theorem save_retry_after_failure (P : Params V) (d0 : Doc V) (chain0) (hb : BaseOK d0 chain0) (ops : List (Op V))
     (hops : HistOK ops) (L : Layout) (hL : L.Pos) (ht : L.typed = true) (hsv : Savable P (run P d0 ops).1)
     (hsize : (run P d0 ops).1.st.refs.length + 2 ≤ MAX_ID) (c : Bool) :
@@ -147,8 +154,12 @@ theorem save_retry_after_failure (P : Params V) (d0 : Doc V) (chain0) (hb : Base
   obtain ⟨dr, h1, _, h2, _⟩ := reload_sees_saved P d0 chain0 hb ops hops L hL d' i hs c
   exact ⟨d', i, dr, hs, h1, h2⟩
 
-/-- a failed save is invisible to the caller: it is an `err`, never a panic, and the abstract map is what
-    it was (so by `read_your_writes` / `untouched_reads_unchanged` every read is what it was) -/
+/-- a save is an `ok` or an `err`, never a panic (first conjunct: this is the content, through `inv_save`). The second
+    conjunct — the abstract map after `ops ++ [save]` is the map after `ops` — holds *by construction* of the
+    specification (`specStep` records writes of `create / update / fulfil` only and ignores `save`; it needs none of the
+    hypotheses). What makes a failed save invisible is that `read_your_writes` and `untouched_reads_unchanged` hold for the
+    history *including* the failed save (they are stated for every history): every written reference still reads its last
+    value, every untouched number what it read before. -/
 theorem failed_save_is_clean (P : Params V) (d0 : Doc V) (chain0) (hb : BaseOK d0 chain0) (ops : List (Op V))
     (hops : HistOK ops) (L : Layout) (hL : L.Pos) :
     ((∃ i, (save P L (run P d0 ops).1).2 = .ok i) ∨ (save P L (run P d0 ops).1).2 = .err) ∧
@@ -239,18 +250,21 @@ theorem late_failure_keeps_revision (P : Params V) (d0 : Doc V) (chain0) (hb : B
     anything else), then a save under which the typed trailer loads again. It succeeds as soon as the document is
     savable; the reload of its output sees every write of the whole history (before and after the failed save) at its
     last value; and the backend of the failed save — previous revisions *and* the revision the failed save left
-    behind — is an unmodified prefix of the output. -/
+    behind — is an unmodified prefix of the output; the failed save (hypotheses `hc`, `hfail`: it wrote its revision and
+    did not return `Ok`) really did lengthen the backend, so the output is longer than the file before it by more than the
+    last revision. -/
 theorem save_retry_after_late_failure (P : Params V) (d0 : Doc V) (chain0) (hb : BaseOK d0 chain0) (ops : List (Op V))
     (hops : HistOK ops) (L : Layout) (hL : L.Pos) (i : SaveInfo)
-    (_hc : commitInfo P L (run P d0 ops).1 = some i)
-    (_hfail : ∀ i', (save P L (run P d0 ops).1).2 ≠ .ok i')
+    (hc : commitInfo P L (run P d0 ops).1 = some i)
+    (hfail : ∀ i', (save P L (run P d0 ops).1).2 ≠ .ok i')
     (ops' : List (Op V)) (hops' : HistOK ops') (L' : Layout) (hL' : L'.Pos) (ht' : L'.typed = true)
     (hsv : Savable P (run P d0 (ops ++ [.save L] ++ ops')).1)
     (hsize : (run P d0 (ops ++ [.save L] ++ ops')).1.st.refs.length + 2 ≤ MAX_ID) (c : Bool) :
     ∃ d' i' dr, save P L' (run P d0 (ops ++ [.save L] ++ ops')).1 = (d', .ok i') ∧ reload d'.st c = .ok dr ∧
       (∀ id v, specRun AMap.empty (ops ++ [.save L] ++ ops') (run P d0 (ops ++ [.save L] ++ ops')).2 id = some v →
         resolve dr.st id = .val v) ∧
-      Extends (save P L (run P d0 ops).1).1.st d'.st := by
+      Extends (save P L (run P d0 ops).1).1.st d'.st ∧
+      (run P d0 ops).1.st.len < (save P L (run P d0 ops).1).1.st.len ∧ (run P d0 ops).1.st.len < d'.st.len := by
   have hall : HistOK (ops ++ [.save L] ++ ops') := by
     intro op hop
     simp only [List.mem_append, List.mem_singleton] at hop
@@ -259,7 +273,9 @@ theorem save_retry_after_late_failure (P : Params V) (d0 : Doc V) (chain0) (hb :
     · exact hL
     · exact hops' op hop
   obtain ⟨d', i', dr, h1, h2, h3⟩ := save_retry_after_failure P d0 chain0 hb _ hall L' hL' ht' hsv hsize c
-  refine ⟨d', i', dr, h1, h2, h3, ?_⟩
+  obtain ⟨_, _, _, hlate, _, _⟩ := late_failure_keeps_revision P d0 chain0 hb ops hops L hL i hc hfail
+  suffices hext : Extends (save P L (run P d0 ops).1).1.st d'.st from
+    ⟨d', i', dr, h1, h2, h3, hext, hlate, Nat.lt_of_lt_of_le hlate hext.len⟩
   have e1 : (run P d0 (ops ++ [.save L] ++ ops')).1 = (run P (save P L (run P d0 ops).1).1 ops').1 := by
     rw [run_append, run_append, run_save]
   have hx := run_extends P ops' (save P L (run P d0 ops).1).1
@@ -271,7 +287,10 @@ theorem save_retry_after_late_failure (P : Params V) (d0 : Doc V) (chain0) (hb :
   exact hx.trans hy
 
 /-- **C09, "several saves in a row"**: from a savable document any number of saves in a row all
-    succeed, as long as the table stays within the reader's limit (each save allocates at most two numbers). -/
+    succeed, as long as the table stays within the reader's limit (each save allocates at most two numbers).
+    Hypotheses that are easy to overlook: `hx` — the cross-reference stream value a save leaves pending is itself
+    serialisable (`P.ok (P.xrefVal i)`: true of `SaveBytes.params` under `Bounds`, an assumption about `P` here); every
+    layout has `L.typed = true` (the typed reload of the trailer succeeds each time). -/
 theorem saves_in_a_row (P : Params V) (hx : ∀ i, P.ok (P.xrefVal i) = true) (d0 : Doc V) (chain0) (hb : BaseOK d0 chain0) :
     ∀ (Ls : List Layout), (∀ L ∈ Ls, L.Pos ∧ L.typed = true) → ∀ (d : Doc V), Inv d0 d → Savable P d →
       d.st.refs.length + 2 * Ls.length ≤ MAX_ID →
@@ -617,5 +636,87 @@ theorem late_failure_keeps_revision_bytes (fmt : R → List UInt8) (env : Env R)
   have hbd := bounds_of_save fmt env.parseReal _ _ (layoutOf_pos fmt typed b) b0.doc b.doc b'.doc chain0 i hb h1.inv hcm htr hv
     (by have := bk.xpos_le; simp only at hsmall; omega)
   exact ⟨hbytes, saveB_spec fmt env.parseReal b0.doc chain0 b b' i hb h1.inv h1.rep.len typed hcb hbd, h2⟩
+
+/-! ### Non-vacuity at byte level: a second save on a file that already holds objects
+
+`Rep` for a file with content is *derived*, not assumed: the history below starts from the bare header (the only base
+whose `Rep` is immediate), its first `save` writes a page tree and a catalog, and `rep_saveB` (inside `hinv_stepB`)
+establishes `Rep` for the resulting 2-object file; the update and the final save then run on that file, and
+`reload_sees_saved_bytes` is applied with every hypothesis discharged. (A base *document* in the sense of `BaseOK` must
+have nothing pending, i.e. be a reloaded one; `BaseOK` for the reload of a saved state is `load_baseOK` + `FileWF`, which
+Props/C09 instantiates abstractly only — `tinyFixed` — not for this byte-level state: left open.) -/
+
+open BuildBytes in
+/-- the bytes after one save on the empty storage represent a state that holds objects -/
+theorem rep_nontrivial (fmt : R → List UInt8) (env : Env R) (hd : env.decrypt = none) (pfuel : Nat)
+    (dec : Dict R → List UInt8 → Out (List UInt8)) (hdec : NoFilter dec) (b1 : BDoc R) (i : SaveInfo)
+    (hs : saveB fmt true (prepared fmt [] none) = (b1, .ok i))
+    (hsmall : b1.bytes.length ≤ fileMax) (hpf : 3 * b1.bytes.length ≤ pfuel) :
+    Rep (parsers env pfuel dec) b1.bytes b1.doc.st ∧ b1.doc.st.objs ≠ [] ∧ b1.doc.st.secs ≠ [] := by
+  have hb0 := baseOK_empty (R := R) none 0
+  have hv0 := baseVals_empty fmt env.parseReal (none : Option (Prim R)) 0 (by intro v h; cases h) (by omega)
+  have hmono : (prepared fmt ([] : List (PageB R)) none).bytes.length ≤ b1.bytes.length := by
+    rw [(saveB_ok_iff fmt true _ _ i hs).2.2]; simp
+  have h1 : HInv fmt env pfuel dec (emptyB none 0) (prepared fmt [] none) :=
+    hinv_runB fmt env hd pfuel dec hdec _ [] hb0 hv0 (buildOps []) _ (hinv_base fmt env pfuel dec _ [] hb0 (rep_empty _ none 0))
+      (goodHist_buildOps fmt env.parseReal [] (by simp) (by intro p hp; simp at hp) _)
+      (by show (prepared fmt [] none).bytes.length ≤ fileMax; omega)
+      (by show 3 * (prepared fmt [] none).bytes.length ≤ pfuel; omega)
+  have hstep : stepB fmt (prepared fmt [] none) (.save true) = (b1, .saved i) := by simp [stepB, hs]
+  have h2 := hinv_stepB fmt env hd pfuel dec hdec _ _ [] hb0 hv0 h1 (.save true) trivial
+    (by rw [hstep]; exact hsmall) (by rw [hstep]; exact hpf)
+  rw [hstep] at h2
+  have bk := saveB_backend fmt _ [] _ b1 i hb0 h1.inv h1.rep.len true (committedB_of_ok fmt true _ _ i hs)
+  refine ⟨h2.rep, ?_, by rw [bk.secs]; simp⟩
+  obtain ⟨ext, e1, _⟩ := bk.objs
+  rw [e1]; simp
+
+def nvEnv : Env (List UInt8) :=
+  { parseReal := fun t => some t, resolveLen := fun _ _ => .err, allowMissingEndobj := false, decrypt := none, fileOffset := 0 }
+
+def nvDec : Dict (List UInt8) → List UInt8 → Out (List UInt8) :=
+  fun d raw => match dictGet d kFilter with | none => .ok raw | some _ => .err
+
+open BuildBytes in
+/-- the history: the builder's operations for a document without pages (page tree 1, catalog 2), a save — from here on
+    the file holds objects —, then the page tree is replaced -/
+def nvOps : List (OpB (List UInt8)) :=
+  buildOps [] ++ [.save true, .update 1 (treeVal [])]
+
+open BuildBytes in
+/-- every hypothesis of `reload_sees_saved_bytes` holds for this history and its final save (the success of the save and
+    the size of the output are computed by the kernel), so its conclusion does: the 2-revision file opens and object 1
+    reads the page tree written by the update -/
+example : ∃ b' i t T,
+    saveB id true (runB id (emptyB none 0) nvOps).1 = (b', .ok i) ∧
+    openB nvEnv (3 * b'.bytes.length) nvDec 3 b'.bytes = .ok (0, t, T) ∧
+    ∃ o, resolveB nvEnv (3 * b'.bytes.length) nvDec 2 b'.bytes 0 t 1 = .ok o ∧ Denotes b'.bytes o (treeVal []) := by
+  have hok : (saveB id true (runB id (emptyB none 0) nvOps).1).2.isOk = true := by decide +kernel
+  have hsm : (saveB id true (runB id (emptyB none 0) nvOps).1).1.bytes.length ≤ fileMax := by decide +kernel
+  have hsecs : (saveB id true (runB id (emptyB none 0) nvOps).1).1.doc.st.secs.length + 1 ≤ 3 := by decide +kernel
+  generalize hs : saveB id true (runB id (emptyB none 0) nvOps).1 = res at hok hsm hsecs
+  obtain ⟨b', o⟩ := res
+  cases o with
+  | ok i =>
+    have hb0 := baseOK_empty (R := List UInt8) none 0
+    have hv0 := baseVals_empty id nvEnv.parseReal (none : Option (Prim (List UInt8))) 0 (by intro v h; cases h) (by omega)
+    have hgood : GoodHist id nvEnv.parseReal (emptyB none 0) nvOps := by
+      apply goodHist_of_vals
+      intro op hop b
+      simp only [nvOps, buildOps, pageOps, List.length_nil, List.replicate_zero, List.nil_append, List.append_nil,
+        List.cons_append, List.mem_cons, List.not_mem_nil, or_false] at hop
+      rcases hop with rfl | rfl | rfl | rfl
+      · exact okVal_tree id nvEnv.parseReal _ (by intro k hk; simp at hk) (by simp)
+      · exact okVal_catalog id nvEnv.parseReal _ (by omega)
+      · trivial
+      · exact okVal_tree id nvEnv.parseReal _ (by intro k hk; simp at hk) (by simp)
+    obtain ⟨t, T, hopen, _, hw, _⟩ := reload_sees_saved_bytes id nvEnv rfl (3 * b'.bytes.length) nvDec
+      (by intro d raw h; simp [nvDec, h]) (emptyB none 0) [] hb0 hv0 (rep_empty _ none 0) nvOps hgood b' i true hs
+      hsm (Nat.le_refl _) 3 hsecs 0
+    refine ⟨b', i, t, T, rfl, hopen, hw 1 (treeVal []) ?_⟩
+    rfl
+  | err => simp [Out.isOk] at hok
+  | panic => simp [Out.isOk] at hok
+  | oof => simp [Out.isOk] at hok
 
 end C09Bytes
